@@ -173,7 +173,7 @@ class GAF:
                     if pattern not in tags:
                         tags[pattern] = val
 
-                    if pattern == "tp:A" and (val != "P" or val != "p"):
+                    if pattern == "tp:A:" and val != "P":
                         is_primary = False
 
         return Alignment(
